@@ -879,6 +879,10 @@ func (st *AclState) applyAccountRemove(ch *aclrecordproto.AclAccountRemove, reco
 }
 
 func (st *AclState) applyReadKeyChange(ch *aclrecordproto.AclReadKeyChange, record *AclRecord, validate bool) error {
+	if ch == nil {
+		// an account removal without the nested read key change (the non-validating path gets here unchecked)
+		return ErrIncorrectReadKey
+	}
 	if validate {
 		err := st.contentValidator.ValidateReadKeyChange(ch, record.Identity)
 		if err != nil {
